@@ -157,7 +157,7 @@ def run_case(case):
             rq, _ = svc.received(dm.NActionRQMessage, pc, message_id=mid, sop_class_uid=cls_uid,
                                  requested_sop_instance_uid=STORAGE_COMMITMENT_INSTANCE, action_type_id=1, data_set=dsutils.encode(ds, True, True))
             try:
-                sc.StorageCommitment.n_action(a, svc.ctx(pc, cls_uid), rq)
+                sc.StorageCommitment()(a, svc.ctx(pc, cls_uid), rq)          # through the dispatcher (get_method, message_to_method)
             except exceptions.AssociationRejectedError:
                 pass
             w = a.wire()
@@ -179,7 +179,7 @@ def run_case(case):
         rq, _ = svc.received(dm.NEventReportRQMessage, pc, message_id=mid, sop_class_uid=cls_uid,
                              affected_sop_instance_uid=STORAGE_COMMITMENT_INSTANCE, event_type_id=2 if fail else 1,
                              data_set=dsutils.encode(ds, True, True))
-        sc.StorageCommitment.n_event_report(a, svc.ctx(pc, cls_uid), rq)
+        sc.StorageCommitment()(a, svc.ctx(pc, cls_uid), rq)
         w = a.wire()
         if len(w) != 1:
             return 'N-EVENT-REPORT-RQ answered %d times' % len(w)
